@@ -13,7 +13,7 @@ rnd = int(sys.argv[1])
 out = sys.argv[2]
 os.makedirs(out, exist_ok=True)
 manifest = json.load(open(os.path.join(VERIF, "MANIFEST.json")))
-na = {(x.get("property_id") or x.get("property") or x.get("id")) if isinstance(x, dict) else x for x in manifest.get("not_applicable", [])}
+na = set() if os.environ.get("SEED_ALL") else {(x.get("property_id") or x.get("property") or x.get("id")) if isinstance(x, dict) else x for x in manifest.get("not_applicable", [])}
 WORDS = {1: "one", 2: "two", 3: "three", 4: "four", 5: "five", 6: "six", 7: "seven"}
 
 for line in open(os.path.join(VERIF, "properties.jsonl")):
